@@ -580,6 +580,35 @@ func runScaleProfiles(c *harness.Ctx) harness.Result {
 		counts = append(counts, ns)
 		desc = append(desc, fmt.Sprintf("(t/%s w/%s):%d samples", alias[0], alias[1], ns))
 	}
+	// every fifth case one profile's "t" column is in a unit that cannot be converted (unknown, or of
+	// another family): harmonising must be refused, whichever profile comes first
+	if r.Intn(5) == 0 {
+		vi := r.Intn(n)
+		bad := []string{"widgets", "gadgets", "frobs", "objects"}[r.Intn(4)]
+		if r.Intn(2) == 0 {
+			of := families[(fa+1+r.Intn(2))%3]
+			ou := of.units[r.Intn(len(of.units))]
+			bad = ou.aliases[r.Intn(len(ou.aliases))]
+			if r.Intn(3) == 0 {
+				bad = ou.canon
+			}
+		}
+		ps[vi].SampleType[1].Unit = bad
+		c.Stat("scaleprofiles.incompatible", 1)
+		err := measurement.ScaleProfiles(ps)
+		res := harness.Result{NonTrivial: true, Sig: fmt.Sprint("incompatible", desc, vi, bad), Sample: fmt.Sprintf("ScaleProfiles with profile %d's column in %q among %v", vi, bad, desc)}
+		if err == nil {
+			res.Verdict = harness.Violated
+			res.Detail = fmt.Sprintf("ScaleProfiles accepted profiles whose 't' columns are in %v with profile %d's in %q: units of different families (or unknown ones) were treated as convertible; resulting units: %v", desc, vi, bad, func() []string {
+				var u []string
+				for _, p := range ps {
+					u = append(u, p.SampleType[1].Unit)
+				}
+				return u
+			}())
+		}
+		return res
+	}
 	res := harness.Result{NonTrivial: true, Sig: fmt.Sprint(desc), Sample: fmt.Sprintf("ScaleProfiles over units %v (+ column in %q)", desc, otherUnit)}
 	c.Stat("scaleprofiles", 1)
 	if fa == fb {
@@ -659,7 +688,7 @@ func init() {
 	harness.Register(&harness.Check{
 		ID:    "C15",
 		Level: "exploration",
-		Rule: "part lattice (exhaustive over the enumerated lattice): every alias x 5 spellings (lower, upper, title, plural, upper plural) of every unit as source x every alias of every unit of the family as target x boundary values {0, +-1, factor-1, factor, factor+1 for every unit step, 2^53+-1, MaxInt64, MinInt64, ...}; plus auto/minimum, negation, unknown and foreign targets. part random: random int64 values, unknown source units. part labels: Label read back through its printed unit within half a display digit, monotone. part drivertop: the real driver's -top -unit=<any alias | minimum> on a profile whose sample unit is any spelling: every flat value read back through the unit it is printed in lies within half a display digit of the exact value, and an explicit unit is the one shown. part percentage. part scaleprofiles: 2-4 profiles with two measured columns (bytes, time or GCU family; half of the time both of the same family so that one unit string needs two different conversions) next to a non-convertible column; every column must be harmonised to the finest unit among the inputs, sample counts and the other column unchanged, physical totals exact (GCU: within 1e-12 relative). " +
+		Rule: "part lattice (exhaustive over the enumerated lattice): every alias x 5 spellings (lower, upper, title, plural, upper plural) of every unit as source x every alias of every unit of the family as target x boundary values {0, +-1, factor-1, factor, factor+1 for every unit step, 2^53+-1, MaxInt64, MinInt64, ...}; plus auto/minimum, negation, unknown and foreign targets. part random: random int64 values, unknown source units. part labels: Label read back through its printed unit within half a display digit, monotone. part drivertop: the real driver's -top -unit=<any alias | minimum> on a profile whose sample unit is any spelling: every flat value read back through the unit it is printed in lies within half a display digit of the exact value, and an explicit unit is the one shown. part percentage. part scaleprofiles: 2-4 profiles with two measured columns (bytes, time or GCU family; half of the time both of the same family so that one unit string needs two different conversions) next to a non-convertible column; every column must be harmonised to the finest unit among the inputs, sample counts and the other column unchanged, physical totals exact (GCU: within 1e-12 relative); every fifth case one profile's column is in an unknown unit or in a unit of another family, at any position of the list, and ScaleProfiles must refuse. " +
 			"oracle: exact math/big.Rat unit tables (1e-12 relative tolerance for float64). non-trivial = every case; distinct = distinct (source spelling, values)",
 		Assumptions: []string{"unit tables as documented in pprof's measurement package: B..PB powers of 1024; ns/us/ms/s/hrs; GCU SI prefixes", "results are float64: exact ratio and identity are judged within 1e-12 relative error (1 ulp differences from multiply-then-divide are not display-visible)"},
 		Parts: []harness.Part{
